@@ -89,6 +89,21 @@ def build_model():
         return True, out + out2
 
 
+def build_translator():
+    with Lock("translator"):
+        t = os.path.join(ROOT, "tools", "globals")
+        rc, out = sh(["go", "build", "-o", os.path.join(BUILD, "globals"), "."], cwd=t, env=GOENV, timeout=1200)
+        return rc == 0, out
+
+
+def build_harness_race():
+    with Lock("harness"):
+        h = os.path.join(ROOT, "harness")
+        rc, out = sh(["go", "build", "-race", "-tags", "verif", "-o", os.path.join(BUILD, "sfharness-race"), "."],
+                     cwd=h, env=GOENV, timeout=1800)
+        return rc == 0, out
+
+
 def build_harness():
     """Rebuild the Go harness against /repo's current working tree, hooks on."""
     with Lock("harness"):
@@ -136,7 +151,23 @@ def check_theorems(pid):
     shutil.rmtree(d, ignore_errors=True)
     os.makedirs(d)
     shutil.copy(src, os.path.join(d, pid + ".v"))
-    rc, out = sh("timeout 1200 coqc -Q %s SF %s.v" % (COQ, pid), cwd=d)
+    if pid == "C19":
+        # the translator: regenerate the footprint table from /repo's sources
+        ok_t, tlog = build_translator()
+        if not ok_t:
+            res["log"] = "translator build failed: " + tlog[-2000:]
+            return res
+        rc, gen = sh([os.path.join(BUILD, "globals"), REPO], env=GOENV, timeout=600)
+        if rc != 0:
+            res["log"] = "translator failed on /repo (does it type-check?): " + gen[-2000:]
+            return res
+        open(os.path.join(d, "Globals_gen.v"), "w").write(gen)
+        res["generated"] = gen
+        rc, out0 = sh("timeout 600 coqc -Q %s SF -Q . Gen Globals_gen.v" % COQ, cwd=d)
+        if rc != 0:
+            res["log"] = "generated table does not compile: " + out0[-2000:]
+            return res
+    rc, out = sh("timeout 1200 coqc -Q %s SF -Q . Gen %s.v" % (COQ, pid), cwd=d)
     res["log"] = out
     if rc != 0:
         return res
@@ -286,6 +317,28 @@ def run_check(pid, tier, seed):
             else:
                 corr_fail.append((v, c))
 
+    # C19: goroutines on independent instances under the race detector
+    race_info = None
+    if P.get("race"):
+        rounds, workers = P["race"][0 if tier == "quick" else 1]
+        ok_r, rlog = build_harness_race()
+        if not ok_r:
+            corr_fail.append(("HARNESS race build failed: " + rlog[-400:], "race\t-"))
+        else:
+            env = dict(GOENV, GORACE="halt_on_error=1 exitcode=66")
+            p = subprocess.run([os.path.join(BUILD, "sfharness-race"), "race", str(seed), str(rounds), str(workers)],
+                               env=env, stdout=subprocess.PIPE, stderr=subprocess.PIPE, text=True, timeout=3000)
+            race_info = dict(rounds=rounds, workers=workers, rc=p.returncode, tail=(p.stdout[-300:] + p.stderr[-1500:]))
+            case = "race\t%d %d %d" % (seed, rounds, workers)
+            if "DATA RACE" in p.stderr or p.returncode == 66:
+                oracle_fail.append(("ORACLE 0 race C19 data race reported by the race detector: " + p.stderr[:1500].replace("\n", " | "), case))
+            elif p.returncode != 0 or "MISMATCH" in p.stdout:
+                oracle_fail.append(("ORACLE 0 race C19 a goroutine's result differs from the sequential result: " + p.stdout[:800].replace("\n", " | "), case))
+            else:
+                m = re.search(r"pipelines=(\d+)", p.stdout)
+                runs.append(dict(kind="race", cases=int(m.group(1)) if m else 0, failures=[], distinct=int(m.group(1)) // 4 if m else 0,
+                                 samples=[p.stdout.strip()[-200:]], errors=[], ok=int(m.group(1)) if m else 0))
+
     def is_known(v, c):
         for k in known:
             if k["rx"].search(v + "\t" + c):
@@ -320,8 +373,11 @@ def run_check(pid, tier, seed):
                                              how="./check %s --replay <this file>" % pid))
         violations.append((path, " no-failing-input-found"))
     if proof_broken and not new_oracle:
+        gen = thm.get("generated", "")
+        sites = gen[gen.find("(* use sites"):][:4000] if "(* use sites" in gen else ""
         path = write_replay(pid, "proof", dict(property=pid, broken="proof obligations of Properties/%s.v" % pid,
-                                              theorems=thm["theorems"], forbidden=forb, log=thm["log"][-3000:]))
+                                              theorems=thm["theorems"], forbidden=forb, log=thm["log"][-3000:],
+                                              generated_use_sites=sites))
         violations.append((path, " no-failing-input-found"))
 
     cases = sum(r["cases"] for r in runs)
@@ -369,6 +425,16 @@ def run_replay(pid, path):
     build_coq(); build_model()
     case = obj["case"]
     parts = case.split("\t")
+    if parts[0] == "race":
+        ok_r, rlog = build_harness_race()
+        a = parts[1].split()
+        p = subprocess.run([os.path.join(BUILD, "sfharness-race"), "race"] + a, env=dict(GOENV, GORACE="halt_on_error=1 exitcode=66"),
+                           stdout=subprocess.PIPE, stderr=subprocess.PIPE, text=True)
+        print(p.stdout[-500:]); print(p.stderr[-3000:])
+        if p.returncode != 0:
+            print("VIOLATION property=%s replay=%s" % (pid, path))
+            return 1
+        return 0
     p = subprocess.run("%s replay | tee /dev/stderr | %s" % (os.path.join(BUILD, "sfharness"), os.path.join(BUILD, "sfmodel")),
                        shell=True, input=parts[0] + "\t" + parts[1] + "\n", stdout=subprocess.PIPE, text=True)
     print(p.stdout.strip())
